@@ -162,6 +162,27 @@ def handle (toks : List String) : Option String :=
       encList written ++ " " ++ (if dom then "DOM" else "NODOM") ++ " " ++ encList expected ++ " " ++
         encList (bind vars (some written))
     | _, _ => bad
+  | ["c02t", vars, targs, text] =>
+    -- the same templates WRITTEN AS SCRIPT TEXT by the harness (`cap <arg> …`, quoted where
+    -- needed, `\${name}` written as such): parse the line, bind the parsed arguments
+    match decVars vars, (targs.splitOn ",").mapM decTArg, decStr text with
+    | some vars, some targs, some text =>
+      let expected := targs.flatMap fun a => match a with
+        | .tmpl t => [Spec.tmplValue vars t]
+        | .spread n => Spec.words ((Vars.get vars n).getD [])
+      let dom := targs.all fun a => match a with
+        | .tmpl t => t.all segOKb
+        | .spread n => keyOKb n && ((Vars.get vars n).getD []).all fun c => c != '"' && c != '#'
+      let got := match parseLine text with
+        | .ok (.script si) => encList (bind vars si.args)
+        | .ok _ => "NOT-A-SCRIPT-LINE"
+        | .error e => "PARSE-ERROR-" ++ encPErr e
+      (if dom then "DOM" else "NODOM") ++ " " ++ encList expected ++ " " ++ got
+    | _, _, _ => bad
+  | ["c13t", _, _] =>
+    -- second-thread schedule: nothing to compute, the expected verdict is constant (the harness
+    -- checks "returns Ok promptly, at most one tick observed the flag set" on the real code)
+    "sched ok"
   | ["bind", vars, args] =>
     match decVars vars, decList args with
     | some vars, some args => encList (bind vars (some args))
